@@ -6,3 +6,4 @@ import SamVerif.Props.C12
 import SamVerif.Props.C10
 import SamVerif.Props.C18
 import SamVerif.Props.C17
+import SamVerif.Props.C19
